@@ -612,6 +612,12 @@ Lemma select_dim_env_bad : forall parse dflt env name s,
   lookup_env env name = Some s -> parse s = None -> select_dim parse dflt env name = Err.
 Proof. intros. unfold select_dim. rewrite H, H0. reflexivity. Qed.
 
+Lemma apply_flag_none : forall parse v, apply_flag parse None v = v.
+Proof. reflexivity. Qed.
+
+Lemma apply_flag_some : forall parse s v v', parse s = Some v' -> apply_flag parse (Some s) v = v'.
+Proof. intros parse s v v' H. unfold apply_flag. rewrite H. reflexivity. Qed.
+
 (* ------------------------------------------------------------------ the pinned code *)
 Definition T1 : list (string * nat) := [("D1a", 0); ("D1b", 1); ("D1c", 2); ("D1d", 3)].
 Definition T2 : list (string * nat) := [("D2a", 0); ("D2b", 1); ("D2c", 2); ("D2d", 3); ("D2e", 4)].
